@@ -174,6 +174,13 @@ def shapes(tier):
     me2 = {"mp": ((("expr", "e"),), (("set", "m", ("bin", "*", ("var", "e"), ("num", 3))), ("match", L("a")), ("set", "m", ("bin", "-", ("var", "m"), ("var", "e"))), ("hook", "h")))}
     for a in EXPR_ARGS[:4]:
         add(me2, ["mp"], (("call", "mp", (a,)),))
+    # 3b. expr arguments whose meaning depends on the assignment target (enum constant, bool)
+    mt = {"setv": ((("expr", "which"),), (("match", L("a")), ("set", "e", ("var", "which")), ("hook", "h"))),
+          "setf": ((("expr", "w"),), (("match", L("a")), ("set", "f", ("var", "w")), ("set", "n", ("var", "w")), ("hook", "h")))}
+    for a in (("enum", "B"), ("enum", "C")):
+        add(mt, ["setv"], (("call", "setv", (a,)), ("match", L("d"))))
+    for a in (("bool", 1), ("bool", 0)):
+        add(mt, ["setf"], (("call", "setf", (a,)), ("match", L("d"))))
     # 4. hook
     mh = {"mh": ((("hook", "k"),), (("match", L("a")), ("hook", "k"), ("optional", (("match", L("b")), ("hook", "k")))))}
     for a in ("h", "g"):
